@@ -892,10 +892,13 @@ func (p *Posix) fileToObjVersions(bucket string) backend.GetVersionsFunc {
 		if err == nil {
 			versionId = string(versionIdBytes)
 		}
-		if versionId == versionIdMarker {
+		// the version id marker names the last version of the previous
+		// page: the listing continues after it
+		isMarkerVersion := !*pastVersionIdMarker && versionId == versionIdMarker
+		if isMarkerVersion {
 			*pastVersionIdMarker = true
 		}
-		if *pastVersionIdMarker {
+		if *pastVersionIdMarker && !isMarkerVersion {
 			fi, err := d.Info()
 			if errors.Is(err, fs.ErrNotExist) {
 				return nil, backend.ErrSkipObj
@@ -1035,6 +1038,17 @@ func (p *Posix) fileToObjVersions(bucket string) backend.GetVersionsFunc {
 		isNullVersionIdObjFound := nullVersionIdObj != nil || nullObjDelMarker != nil
 
 		if len(dirEnts) == 1 && (isNullVersionIdObjFound) {
+			if !*pastVersionIdMarker {
+				// still looking for the marker version: it can only be
+				// this null version, which was listed on the previous page
+				if versionIdMarker == nullVersionId {
+					*pastVersionIdMarker = true
+				}
+				return &backend.ObjVersionFuncResult{
+					ObjectVersions: objects,
+					DelMarkers:     delMarkers,
+				}, nil
+			}
 			if nullObjDelMarker != nil {
 				delMarkers = append(delMarkers, *nullObjDelMarker)
 			}
@@ -1078,7 +1092,14 @@ func (p *Posix) fileToObjVersions(bucket string) backend.GetVersionsFunc {
 			// If the null versionId object is found, first push it
 			// by checking its creation date, then continue the adding
 			if isNullVersionIdObjFound && !isNullVersionIdObjAdded {
-				if nf.ModTime().After(f.ModTime()) {
+				if nf.ModTime().After(f.ModTime()) && !*pastVersionIdMarker {
+					// the null version belongs here, but it is on an
+					// earlier page (or is the marker version itself)
+					isNullVersionIdObjAdded = true
+					if versionIdMarker == nullVersionId {
+						*pastVersionIdMarker = true
+					}
+				} else if nf.ModTime().After(f.ModTime()) {
 					if nullVersionIdObj != nil {
 						objects = append(objects, *nullVersionIdObj)
 					}
@@ -1164,7 +1185,13 @@ func (p *Posix) fileToObjVersions(bucket string) backend.GetVersionsFunc {
 
 		// If null versionId object is found but not yet pushed,
 		// push it after the listing, as it's the oldest object version
-		if isNullVersionIdObjFound && !isNullVersionIdObjAdded {
+		if isNullVersionIdObjFound && !isNullVersionIdObjAdded && !*pastVersionIdMarker {
+			// the null version is the marker version (or the marker was
+			// not found among this key's versions): nothing left to list
+			if versionIdMarker == nullVersionId {
+				*pastVersionIdMarker = true
+			}
+		} else if isNullVersionIdObjFound && !isNullVersionIdObjAdded {
 			if nullVersionIdObj != nil {
 				objects = append(objects, *nullVersionIdObj)
 			}
